@@ -36,6 +36,8 @@ it true, every step of it read off the MIR:
              runs of every driver, the sponge absorb loop for every offset and the boundary lengths; where the for-all-lengths
              rules above cannot recognise a loop shape and this passes, their report is recorded as not decided elsewhere
   legacy     the legacy Digest wrappers reach their hashing context on every path (input / result / reset; shared with C09)
+  index-bounds every slice expression / split_at over the tracked windows is provably in bounds (a split that makes update
+             panic breaks the property as surely as a wrong digest)
 Not decided: the digest values themselves (C01), SIMD lane batching (C16)."""
 import re
 
